@@ -32,7 +32,7 @@ ASSUMPTIONS = [
 ]
 MIN_NONTRIVIAL = {"quick": 500, "thorough": 5000}
 EXH_N = {"quick": 2, "thorough": 3}
-N_SAMPLED = {"quick": 2500, "thorough": 50000}
+N_SAMPLED = {"quick": 2500, "thorough": 500000}
 CHUNK = 512
 
 TOOL = 4
